@@ -423,3 +423,58 @@ def h_layout(bs: int, tb: int, ns: int, nsh: int, uebsize: int, segnum: int) -> 
     if len(notes) != 1 or notes[0].get("block") is not blk:
         return "delivered block is not the checked block"
     return True
+
+
+# ---- guessed tables are replaced by the real ones once the UEB arrives ---------------
+
+class _HT2(_HT):
+    def needed_hashes(self, leafnum, include_leaf=False):
+        return ("needed", self.n, leafnum, include_leaf)
+
+
+def h_guess_vs_real(size: int, blk: int, guess_max: int, k: int, n: int, last: bool) -> bool:
+    """
+    pre: 1 <= k <= n <= B["n_max"] and k == B["k"]
+    pre: 1 <= size <= B["size_max"] and 1 <= blk and k * blk <= B["seg_max"] and 1 <= guess_max <= B["seg_max"]
+    post: _ == True
+    """
+    segsize = k * blk
+    ueb = {"segment_size": segsize, "crypttext_root_hash": b"c", "share_root_hash": b"s"}
+    saved_ht, saved_unpack = node_mod.IncompleteHashTree, node_mod.uri.unpack_extension
+    nd = node_mod.DownloadNode.__new__(node_mod.DownloadNode)
+    nd._verifycap = hlib.NS(size=size, needed_shares=k, total_shares=n, to_string=lambda: b"cap")
+    nd._lp = 0
+    nd._segsize_observers = _Obs()
+    nd.share_hash_tree = _HT2(n)
+    node_mod.IncompleteHashTree = _HT2
+    node_mod.uri.unpack_extension = lambda u: u
+    try:
+        if k == 1:
+            nd._build_guessed_tables(guess_max)
+        else:
+            # two symbolic divisors (guessed and real segment size) are out of z3's reach for k > 1: use an
+            # over-approximated guessed state instead (any guessed segment count >= 1), recorded as an assumption
+            nd.guessed_segment_size = k * guess_max
+            nd.guessed_num_segments = guess_max
+            nd.ciphertext_hash_tree = _HT2(guess_max)
+            nd.ciphertext_hash_tree_leaves = guess_max
+        _parse_ueb(nd, ueb)
+    finally:
+        node_mod.IncompleteHashTree, node_mod.uri.unpack_extension = saved_ht, saved_unpack
+    ns = nd.num_segments
+    if ns < 1 or (ns - 1) * segsize >= size or ns * segsize < size:
+        return "real num_segments wrong"
+    segnum = ns - 1 if last else 0   # first and last real segment (the comparison in the code is monotone in segnum)
+    if nd.ciphertext_hash_tree.n != ns:
+        return "ciphertext hash tree not sized for the real segment count"
+    if nd.ciphertext_hash_tree.set != [({0: b"c"}, None)]:
+        return "ciphertext root not installed in the tree in use"
+    # every real segment must be able to ask for its ciphertext hashes, and 'desired' must agree with 'needed'
+    want = ("needed", ns, segnum, True)
+    if nd.get_needed_ciphertext_hashes(segnum) != want:
+        return "needed ciphertext hashes not computed on the real tree"
+    if nd.get_desired_ciphertext_hashes(segnum) != want:
+        return "desired ciphertext hashes disagree with the real tree (stale guessed table)"
+    if nd.share_hash_tree.set != [({0: b"s"}, None)]:
+        return "share root hash not installed"
+    return True
